@@ -114,6 +114,7 @@ def make_runner(mode, shape, npos=0, nkwo=0, nargs=0, nkeys=0, want=None):
 
     def run(ctx, r):
         env['r'] = r
+        env.pop('discovered', None)
         info = mk_sig(I, ctx, 's', shape)
         env['info'] = info
         func = CalledFunc('wrapped_func')
@@ -122,7 +123,23 @@ def make_runner(mode, shape, npos=0, nkwo=0, nargs=0, nkeys=0, want=None):
 
         def forged(interp_, clo, args, kwpairs):
             # contract of forged_signature(func, auto=False) for a plain function: its upgraded def-signature
-            return info.sig
+            auto = dict(kwpairs).get('auto', args[1] if len(args) > 1 else True)
+            if auto is False or not (shape[2] or shape[4]):
+                return info.sig
+            # with discovery on, a function that forwards *args / **kwargs is reported with the callee's parameters in
+            # their place: the def-signature's own parameters, then one the function does not declare
+            if 'discovered' not in env:
+                from vf.harness import mk_param, classes
+                from vf.sym import MV, TList
+                _, US_, Empty_ = classes(I)
+                nm = SymName(z3.Const('name_of_a_callee_parameter', NameS))
+                ctx.add(z3.And(*[nm.t != n for n in info.names]))
+                extra = mk_param(I, nm, POK, MV(z3.BoolVal(True), z3.Const('d_callee', sym.ValS)), MV(z3.BoolVal(False), sym.NONEVAL), Empty_,
+                                 info.funcs[0], TList([info.funcs[0]]), SymDict())
+                own = [p for p in info.params if p.kind in (PO, POK)]
+                rest = [p for p in info.params if p.kind == KWO]
+                env['discovered'] = I.instantiate(US_, [own + [extra] + rest], [])
+            return env['discovered']
         I.call_hooks['_specifiers:forged_signature'] = forged
         if mode in ('prepare', 'call'):
             poso = [SymName(z3.Const('poso%d' % i, NameS)) for i in range(npos)]
